@@ -3,6 +3,7 @@ CONSTANTS
   ClampIndex = TRUE
   EmptySpanClamp = FALSE
   SkipReclip = FALSE
+  EmptySourceFix = FALSE
   Tol = 10
   MaxToks = 4
   MaxAnns = 2
